@@ -256,6 +256,48 @@ def _local_list_emptiness(name, f, par):
     return "unknown", f"appends to `{name}` are conditional (line(s) {sorted(a.lineno for a in apps)}) and the conditions are not understood"
 
 
+def _attr_emptiness(attr, f, par, call):
+    """self.<attr> created empty by the constructor and filled only by other methods: an instance on which those were
+    never called reaches the reducer with an empty collection."""
+    cls = f.cls
+    if cls is None:
+        return "unknown", "not a method"
+    init = cls.method("__init__")
+    if init is None:
+        return "unknown", "no constructor"
+    creates = [n for n in ast.walk(init.node) if isinstance(n, ast.Assign) and len(n.targets) == 1 and
+               isinstance(n.targets[0], ast.Attribute) and isinstance(n.targets[0].value, ast.Name) and
+               n.targets[0].value.id == "self" and n.targets[0].attr == attr]
+    if len(creates) != 1:
+        return "unknown", f"self.{attr} is not created exactly once in the constructor"
+    v = creates[0].value
+    empty = isinstance(v, (ast.List, ast.Set, ast.Dict, ast.Tuple)) and not (getattr(v, "elts", None) or getattr(v, "keys", None)) or \
+        isinstance(v, ast.Call) and isinstance(v.func, ast.Name) and v.func.id in ("set", "list", "dict", "frozenset", "tuple", "OrderedDict") and \
+        not v.args and not v.keywords
+    if not empty:
+        return "unknown", f"self.{attr} is created as {ast.unparse(v)[:40]}"
+    fill = ("add", "append", "extend", "insert", "update", "setdefault")
+
+    def fills(node):
+        for n in ast.walk(node):
+            if isinstance(n, ast.Call) and isinstance(n.func, ast.Attribute) and n.func.attr in fill and \
+                    ast.unparse(n.func.value) == f"self.{attr}":
+                yield n
+            if isinstance(n, (ast.Assign, ast.AugAssign)):
+                for t in (n.targets if isinstance(n, ast.Assign) else [n.target]):
+                    if isinstance(t, ast.Subscript) and ast.unparse(t.value) == f"self.{attr}":
+                        yield n
+    if any(True for _ in fills(init.node)):
+        return "unknown", f"the constructor itself fills self.{attr}"
+    here = [n for n in fills(f.node) if n.lineno < call.lineno]
+    if here:
+        return "unknown", f"self.{attr} is filled earlier in this function"
+    fillers = sorted({m for m, fs in cls.methods.items() for g in fs if m != "__init__" and any(True for _ in fills(g.node))})
+    return "maybe-empty", (f"self.{attr} is created empty by the constructor and filled only by {', '.join(x + '()' for x in fillers) or 'nothing'}: "
+                           "an instance on which that was never called (e.g. a multiplexer without readable, or without writable, registers) "
+                           "reaches this call with an empty collection")
+
+
 def partial_reducers(rep, idx):
     """reduce(f, seq) without initial value, max()/min() of one iterable without default=, next(it) without default:
     they raise TypeError / ValueError / StopIteration on an empty sequence -- an internal error, not a refusal."""
@@ -296,6 +338,8 @@ def partial_reducers(rep, idx):
                     verdict, why = "nonempty", "literal with at least one element"
                 elif isinstance(src, ast.Name):
                     verdict, why = _local_list_emptiness(src.id, f, par)
+                elif isinstance(src, ast.Attribute) and isinstance(src.value, ast.Name) and src.value.id == "self":
+                    verdict, why = _attr_emptiness(src.attr, f, par, n)
                 if verdict != "nonempty":
                     proof = _flag_proves_nonempty(n, ast.unparse(src), f, par)
                     if proof:
